@@ -24,7 +24,7 @@ META = {
     'assumptions': ['the oracle is the grammar\'s own verdict (S10); text the grammar silently ignores after the last '
                     'declaration (rule mal has no trailing EOF) is counted but outside the property'],
     'shards': {'quick': 8, 'thorough': 16},
-    'quotas_fixed': ['x-delete', 'x-truncate'],
+    'quotas_fixed': ['x-delete', 'x-truncate', 'class:another-directory-with-the-same-file-names-loaded-first'],
     'quotas': {
         'quick': {'class:include-chain-of-17-or-more-files': 60, 'class:same-compiler-object-asked-12-times': 30, 'class:another-directory-with-the-same-file-names-loaded-first': 4, 'mutation:exotic-char:erroneous': 80, 'class:include-with-directory-part-and-wellformed-decoy': 50, 'label:erroneous': 1000, 'erroneous:lexer-error': 100, 'erroneous:parser-error': 1000,
                   'erroneous-in-included-file': 100, 'erroneous:raised': 1000, 'x-delete': 70, 'x-truncate': 70,
